@@ -1216,12 +1216,72 @@ fn challenge_body(d: &[u8], proto: u64, s2c: &[u8; 32]) -> Option<Vec<u8>> {
     }
 }
 
+/// the client `h` at `addr` receives the challenge `chal`, answers it at once, the answer is delivered and the
+/// server's reply (keep-alive / denial) handed back; returns the server's output for the response
+fn answer_challenge(sc: &mut Sc, h: u64, addr: &str, chal: &[u8], expect: Option<&str>) -> String {
+    sc.op(&format!("cli-rx {} {}", h, hex(chal)));
+    let resp = match sc.opd(&format!("cli-upd {} 0", h)) {
+        (_, Some(k)) => sc.hist[k].bytes.clone(),
+        _ => return String::new(),
+    };
+    if let Some(e) = expect {
+        sc.op(&format!("note {}", e));
+    }
+    let (out, e) = sc.opd(&format!("srv-rx 0 {} {}", addr, hex(&resp)));
+    if let Some(k) = e {
+        let reply = sc.hist[k].bytes.clone();
+        sc.op(&format!("cli-rx {} {}", h, hex(&reply)));
+    }
+    out
+}
+
+/// connection requests that pass every clear-text check of the server (version, protocol id, expiry) but whose
+/// private connect token does not authenticate; `genuine` is a captured request for the same server
+fn forged_request(rng: &mut Rng, genuine: &[u8], proto: u64, now_s: u64) -> Vec<u8> {
+    match rng.below(5) {
+        // one bit of the sealed private part flipped (the last 16 bytes are its MAC)
+        0 if genuine.len() >= 1078 => flip_bit(genuine, 54 * 8 + rng.below(1024 * 8) as usize),
+        1 if genuine.len() >= 1078 => flip_bit(genuine, 1078 * 8 - 1 - rng.below(128) as usize),
+        // the public header of the captured request over a private part of the attacker's making
+        2 if genuine.len() >= 1078 => {
+            let mut d = genuine[..54].to_vec();
+            d.extend(rng.bytes(1024));
+            d
+        }
+        // the bound public fields changed: the nonce of the token, its expiry (still in the future)
+        3 if genuine.len() >= 1078 => {
+            if rng.chance(1, 2) {
+                flip_bit(genuine, 30 * 8 + rng.below(24 * 8) as usize)
+            } else {
+                let mut d = genuine.to_vec();
+                let old = u64::from_le_bytes(d[22..30].try_into().unwrap());
+                let mut e = now_s + 1 + rng.below(1000);
+                if e == old {
+                    e += 1;
+                }
+                d[22..30].copy_from_slice(&e.to_le_bytes());
+                d
+            }
+        }
+        // made from scratch, with trailing bytes now and then
+        _ => {
+            let mut d = request_datagram(proto, now_s + 1 + rng.below(100_000), &k24(rng), &rng.bytes(1024));
+            d[0] = rng.pick(&[0x00u8, 0x00, 0x10, 0xf0]);
+            if rng.chance(1, 3) {
+                let n = rng.range(1, 300) as usize;
+                d.extend(rng.bytes(n));
+            }
+            d
+        }
+    }
+}
+
 fn script_attacker(rng: &mut Rng, _tier: Tier, f: &mut dyn FnMut(&str) -> String) {
     let mut sc = Sc::new(f);
-    let scenario = rng.below(8);
+    let scenario = rng.below(10);
     let max = match scenario {
         3 => 1,
-        6 => rng.pick(&[1usize, 2]),
+        6 | 9 => rng.pick(&[1usize, 2]),
         7 => rng.pick(&[1usize, 2, 3]),
         _ => rng.pick(&[2usize, 3]),
     };
@@ -1476,6 +1536,127 @@ fn script_attacker(rng: &mut Rng, _tier: Tier, f: &mut dyn FnMut(&str) -> String
                         srv_rx(&mut sc, &x, &resp);
                         srv_rx(&mut sc, &a[victim], &resp);
                     }
+                }
+            }
+        }
+        8 => {
+            // the limit is RAISED at run time by a small step (never lowered); more handshakes than there are
+            // free seats are half-open at once — every one of them challenged while the server is not full —
+            // and then all of them answer: exactly the free seats are taken, the rest is refused
+            let l = max;
+            let r = if l == 3 && rng.chance(1, 2) { 2 } else { 1 };
+            let extra = rng.range(1, 2) as usize;
+            let mut addrs: Vec<String> = a.to_vec();
+            for i in 3..(l + r + extra) {
+                let mut spec = base_spec(rng, 900 + i as u64, srv.proto, srv.key, now_s, &hosts);
+                spec.expire = now_s + 30;
+                spec.seal_expire = spec.expire;
+                spec.timeout = 5;
+                let ad = a4(10, 3, 2, i as u8, 4310 + i as u16);
+                if let Some(c) = new_client(&mut sc, i as u64, &ad, &spec, srv.now_us) {
+                    if let (_, Some(k)) = sc.opd(&format!("cli-upd {} 0", c.h)) {
+                        reqs.push(sc.hist[k].bytes.clone());
+                        cls.push(c);
+                        addrs.push(ad);
+                    }
+                }
+            }
+            let total = cls.len();
+            let base = rng.below(l as u64 + 1) as usize; // sessions that exist before the race
+            // where the limit is raised: before the existing sessions, after them, or (when there is still room for
+            // challenges) while the racers are already half-open
+            let raise_at = rng.below(if base < l { 3 } else { 2 });
+            let raise = format!("srv-setmax 0 {}", l + r);
+            if raise_at == 0 {
+                sc.op(&raise);
+            }
+            for i in 0..base.min(total) {
+                if let (_, Some(ch)) = srv_rx(&mut sc, &addrs[i], &reqs[i]) {
+                    answer_challenge(&mut sc, cls[i].h, &addrs[i], &ch, None);
+                }
+            }
+            sc.op("srv-dump 0");
+            if raise_at == 1 {
+                sc.op(&raise);
+                sc.op("srv-dump 0");
+            }
+            let mut chals: Vec<(usize, Vec<u8>)> = vec![];
+            for i in base.min(total)..total {
+                if let (_, Some(ch)) = srv_rx(&mut sc, &addrs[i], &reqs[i]) {
+                    chals.push((i, ch));
+                }
+            }
+            if raise_at == 2 {
+                sc.op(&raise);
+            }
+            sc.op("srv-dump 0");
+            if rng.chance(1, 2) {
+                chals.reverse();
+            }
+            for (i, ch) in chals.iter() {
+                answer_challenge(&mut sc, cls[*i].h, &addrs[*i], ch, None);
+                sc.op("srv-dump 0");
+                sc.op(&format!("srv-q 0 {}", cls[*i].tok.spec.id));
+            }
+            // the existing sessions are undisturbed
+            for i in 0..base.min(total) {
+                sc.op(&format!("srv-q 0 {}", cls[i].tok.spec.id));
+                sc.op(&format!("srv-pay 0 {} 6f6b", cls[i].tok.spec.id));
+            }
+        }
+        9 => {
+            // every seat is taken while other handshakes are half-open (challenged before the server filled up);
+            // forged connection requests — clear-text header in order, private token not authentic — arrive from
+            // the addresses of the half-open clients (and from a connected and an unknown one): nothing may change.
+            // Then one victim answers its challenge while the server is still full (it is told so), another one
+            // after a seat has become free (it connects).
+            let nfill = max.min(2);
+            let victims: Vec<usize> = (nfill..3).collect();
+            let mut chal: Vec<Option<Vec<u8>>> = vec![None; 3];
+            for &v in victims.iter() {
+                chal[v] = srv_rx(&mut sc, &a[v], &reqs[v]).1;
+            }
+            for i in 0..nfill {
+                if let (_, Some(ch)) = srv_rx(&mut sc, &a[i], &reqs[i]) {
+                    answer_challenge(&mut sc, cls[i].h, &a[i], &ch, None);
+                }
+            }
+            sc.op("srv-dump 0");
+            let unknown = a4(10, 3, 0, 9, 4309);
+            let rounds = rng.range(2, 5);
+            for _ in 0..rounds {
+                let v = rng.pick(&victims);
+                let from = match rng.below(6) {
+                    0 => a[0].clone(),
+                    1 => unknown.clone(),
+                    _ => a[v].clone(),
+                };
+                let g = if rng.chance(3, 4) { reqs[v].clone() } else { reqs[0].clone() };
+                let d = forged_request(rng, &g, srv.proto, now_s);
+                hostile_srv(&mut sc, "hostile", &from, &d);
+            }
+            // the victims go on
+            let mut order = victims.clone();
+            if rng.chance(1, 2) {
+                order.reverse();
+            }
+            let mut freed = false;
+            for (n, &v) in order.iter().enumerate() {
+                let free_first = if order.len() == 1 { rng.chance(1, 2) } else { n == 1 };
+                if free_first && !freed {
+                    freed = true;
+                    if rng.chance(1, 2) {
+                        sc.op(&format!("srv-disc 0 {}", cls[0].tok.spec.id));
+                    } else if let (_, Some(k)) = sc.opd("cli-disc 0") {
+                        let d = sc.hist[k].bytes.clone();
+                        srv_rx(&mut sc, &a[0], &d);
+                    }
+                    sc.op("srv-dump 0");
+                }
+                if let Some(ch) = chal[v].clone() {
+                    answer_challenge(&mut sc, cls[v].h, &a[v], &ch, None);
+                    sc.op("srv-dump 0");
+                    sc.op(&format!("cli-dump {}", cls[v].h));
                 }
             }
         }
@@ -1983,7 +2164,7 @@ fn script_wire(rng: &mut Rng, tier: Tier, f: &mut dyn FnMut(&str) -> String) {
 // profile 0: nc-regress — one fixed op list per repaired defect (deterministic, run on every check)
 // =============================================================================================
 
-const REGRESS_CASES: usize = 18;
+const REGRESS_CASES: usize = 21;
 
 fn regress_script(case: usize, f: &mut dyn FnMut(&str) -> String) {
     let mut rng = Rng::new(0xD1CE + case as u64);
@@ -1994,7 +2175,7 @@ fn regress_script(case: usize, f: &mut dyn FnMut(&str) -> String) {
     let proto = 7u64;
     let hosts = SRV_A.to_string();
     let max = match case {
-        7 => 1,
+        7 | 19 => 1,
         13 => 3,
         _ => 2,
     };
@@ -2425,6 +2606,164 @@ fn regress_script(case: usize, f: &mut dyn FnMut(&str) -> String) {
                 sc.op("srv-dump 0");
             }
         }
+        // the limit raised by one at run time (2 -> 3, never lowered) with every seat taken; two newcomers are
+        // challenged while one seat is free, then both answer: one is seated, the other one refused
+        18 => {
+            fast_connect(&mut sc, &cls[0]);
+            fast_connect(&mut sc, &cls[1]);
+            sc.op("srv-dump 0");
+            sc.op("srv-setmax 0 3");
+            sc.op("srv-dump 0");
+            let mut racers: Vec<(Cl, Vec<u8>)> = vec![];
+            for j in 0..2u64 {
+                let mut spec = base_spec(rng, 50 + j, proto, key, 5, &hosts);
+                spec.expire = 35;
+                spec.seal_expire = 35;
+                spec.timeout = 5;
+                let a = a4(10, 9, 0, 20 + j as u8, 4920 + j as u16);
+                if let Some(c) = new_client(&mut sc, 5 + j, &a, &spec, 5_000_000) {
+                    if let (_, Some(k)) = sc.opd(&format!("cli-upd {} 0", c.h)) {
+                        let req = sc.hist[k].bytes.clone();
+                        if let (_, Some(k)) = sc.opd(&format!("srv-rx 0 {} {}", c.addr, hex(&req))) {
+                            let chal = sc.hist[k].bytes.clone();
+                            racers.push((c, chal));
+                        }
+                    }
+                }
+            }
+            sc.op("srv-dump 0");
+            for (c, chal) in racers.iter() {
+                answer_challenge(&mut sc, c.h, &c.addr, chal, None);
+                sc.op("srv-dump 0");
+                sc.op(&format!("srv-q 0 {}", c.tok.spec.id));
+                sc.op(&format!("cli-dump {}", c.h));
+            }
+            for id in [40u64, 41] {
+                sc.op(&format!("srv-q 0 {}", id));
+            }
+        }
+        // a full server (one seat, taken) and two half-open handshakes that were challenged before it filled up;
+        // forged connection requests (clear-text header in order, private token not authentic) from their
+        // addresses change nothing: the first victim answers while the server is full and is told so, the second
+        // one after the seat has become free and connects
+        19 => {
+            let mut spec = base_spec(rng, 52, proto, key, 5, &hosts);
+            spec.expire = 35;
+            spec.seal_expire = 35;
+            spec.timeout = 5;
+            let a2 = a4(10, 9, 0, 30, 4930);
+            if let Some(c2) = new_client(&mut sc, 5, &a2, &spec, 5_000_000) {
+                let mut half: Vec<(u64, String, Vec<u8>, Vec<u8>)> = vec![];
+                for (h, a) in [(1u64, cls[1].addr.clone()), (c2.h, c2.addr.clone())] {
+                    if let (_, Some(k)) = sc.opd(&format!("cli-upd {} 0", h)) {
+                        let req = sc.hist[k].bytes.clone();
+                        if let (_, Some(k)) = sc.opd(&format!("srv-rx 0 {} {}", a, hex(&req))) {
+                            let chal = sc.hist[k].bytes.clone();
+                            half.push((h, a, req, chal));
+                        }
+                    }
+                }
+                fast_connect(&mut sc, &cls[0]);
+                sc.op("srv-dump 0");
+                if half.len() == 2 {
+                    // one bit of the sealed private part flipped; the public header over a foreign private part;
+                    // the last bit of the token's MAC flipped
+                    let f1 = flip_bit(&half[0].2, (54 + 100) * 8);
+                    hostile_srv(&mut sc, "hostile", &half[0].1.clone(), &f1);
+                    let mut f2 = half[1].2[..54].to_vec();
+                    f2.extend(vec![0x5au8; 1024]);
+                    hostile_srv(&mut sc, "hostile", &half[1].1.clone(), &f2);
+                    let f3 = flip_bit(&half[1].2, 1078 * 8 - 1);
+                    hostile_srv(&mut sc, "hostile", &half[1].1.clone(), &f3);
+                    // the same from a connected and from an unknown address
+                    hostile_srv(&mut sc, "hostile", &cls[0].addr.clone(), &f1);
+                    hostile_srv(&mut sc, "hostile", &a4(10, 9, 0, 66, 4966), &f1);
+                    // still full: the first victim is refused
+                    answer_challenge(&mut sc, half[0].0, &half[0].1.clone(), &half[0].3.clone(), None);
+                    sc.op("srv-dump 0");
+                    sc.op(&format!("cli-dump {}", half[0].0));
+                    // the seat becomes free: the second victim connects
+                    sc.op(&format!("srv-disc 0 {}", cls[0].tok.spec.id));
+                    sc.op("srv-dump 0");
+                    answer_challenge(&mut sc, half[1].0, &half[1].1.clone(), &half[1].3.clone(), None);
+                    sc.op("srv-dump 0");
+                    sc.op(&format!("cli-dump {}", half[1].0));
+                    sc.op("srv-q 0 52");
+                    if let (_, Some(k)) = sc.opd(&format!("cli-pay {} 6869", half[1].0)) {
+                        let d = sc.hist[k].bytes.clone();
+                        sc.op(&format!("srv-rx 0 {} {}", half[1].1, hex(&d)));
+                    }
+                }
+            }
+        }
+        // fail-over in the RESPONSE phase: the first address of the token answers the request with a challenge and
+        // then stays silent, the client answers it (sealed, sequences 1..) until its timeout, moves on to the second
+        // address, completes the handshake there and runs a short session — all under one client-to-server key
+        20 => {
+            let first = a4(10, 9, 9, 1, 5901);
+            let mut spec = base_spec(rng, 49, proto, key, 5, &format!("{},{}", first, SRV_A));
+            spec.expire = 65;
+            spec.seal_expire = 65;
+            spec.timeout = 1;
+            let a = a4(10, 9, 0, 40, 4940);
+            if let Some(c) = new_client(&mut sc, 5, &a, &spec, 5_000_000) {
+                // (the silent first "server" is played by server 0: it only has to produce one challenge)
+                if let (_, Some(k)) = sc.opd("cli-upd 5 0") {
+                    let req = sc.hist[k].bytes.clone();
+                    if let (_, Some(k)) = sc.opd(&format!("srv-rx 0 {} {}", c.addr, hex(&req))) {
+                        let chal = sc.hist[k].bytes.clone();
+                        sc.op(&format!("cli-rx 5 {}", hex(&chal)));
+                    }
+                }
+                sc.op("cli-upd 5 0"); // responses towards the first address: lost
+                sc.op("cli-dump 5");
+                for _ in 0..3 {
+                    sc.op("cli-upd 5 300000");
+                }
+                sc.op("cli-q 5");
+                sc.op("srv-upd 0 1200000");
+                // 1.2 s after the challenge: time-out, next address, request at once
+                if let (_, Some(k)) = sc.opd("cli-upd 5 300000") {
+                    let req = sc.hist[k].bytes.clone();
+                    sc.op("cli-q 5");
+                    if sc.hist[k].to == SRV_A {
+                        if let (_, Some(k)) = sc.opd(&format!("srv-rx 0 {} {}", c.addr, hex(&req))) {
+                            let chal = sc.hist[k].bytes.clone();
+                            answer_challenge(&mut sc, 5, &c.addr, &chal, None);
+                        }
+                    }
+                }
+                sc.op("cli-dump 5");
+                // a short session
+                for j in 0..6u8 {
+                    if let (_, Some(k)) = sc.opd(&format!("cli-pay 5 {:02x}{:02x}", 0x70 + j, j)) {
+                        let d = sc.hist[k].bytes.clone();
+                        sc.op("note expect-payload");
+                        sc.op(&format!("srv-rx 0 {} {}", c.addr, hex(&d)));
+                    }
+                    if j % 2 == 1 {
+                        sc.op("srv-upd 0 250000");
+                        if let (_, Some(k)) = sc.opd("cli-upd 5 250000") {
+                            let d = sc.hist[k].bytes.clone();
+                            sc.op(&format!("srv-rx 0 {} {}", c.addr, hex(&d)));
+                        }
+                        if let (_, Some(k)) = sc.opd("srv-updc 0 49") {
+                            let d = sc.hist[k].bytes.clone();
+                            sc.op(&format!("cli-rx 5 {}", hex(&d)));
+                        }
+                    }
+                }
+                sc.op("note expect-up:failover-not-connected");
+                sc.op("cli-q 5");
+                sc.op("note expect-up:failover-not-connected");
+                sc.op("srv-q 0 49");
+                if let (_, Some(k)) = sc.opd("cli-disc 5") {
+                    let d = sc.hist[k].bytes.clone();
+                    sc.op(&format!("srv-rx 0 {} {}", c.addr, hex(&d)));
+                }
+                sc.op("srv-dump 0");
+            }
+        }
         // sequence 2^64-1 (the window's EMPTY sentinel) from the owner of a session
         _ => {
             fast_connect(&mut sc, &cls[0]);
@@ -2543,6 +2882,10 @@ struct FoClient {
     delay_instead_of_loss: bool,
     held: Vec<usize>,
     done: bool,
+    /// fail-over in the RESPONSE phase: the first address of the token answers the first request with a challenge
+    /// and is silent from then on (the client seals responses for it until its timeout)
+    early: bool,
+    early_done: bool,
 }
 
 fn script_failover(rng: &mut Rng, _tier: Tier, f: &mut dyn FnMut(&str) -> String) {
@@ -2577,7 +2920,9 @@ fn script_failover(rng: &mut Rng, _tier: Tier, f: &mut dyn FnMut(&str) -> String
         if let Some(cl) = new_client(&mut sc, i as u64, &addr, &spec, srv.now_us) {
             // the faulty window leaves the client enough of its timeout to complete afterwards
             let window_us = rng.pick(&[0u64, 100_000, 200_000, 300_000, timeout_us - 700_000]).min(timeout_us - 700_000);
-            fcs.push(FoClient { cl, real_at: k, timeout_us, t_us: srv.now_us, reached_us: None, window_us, delay_instead_of_loss: rng.chance(1, 2), held: vec![], done: false });
+            let delay_instead_of_loss = rng.chance(1, 2);
+            let early = !big && k >= 1 && rng.chance(1, 3);
+            fcs.push(FoClient { cl, real_at: k, timeout_us, t_us: srv.now_us, reached_us: None, window_us, delay_instead_of_loss, held: vec![], done: false, early, early_done: false });
         }
     }
     sc.op("note setup-done");
@@ -2632,6 +2977,15 @@ fn script_failover(rng: &mut Rng, _tier: Tier, f: &mut dyn FnMut(&str) -> String
                         fcs[ci].reached_us = Some(fcs[ci].t_us);
                     }
                     outgoing.push(k);
+                } else if fcs[ci].early && !fcs[ci].early_done && sc.hist[k].bytes.first().map(|b| b & 0xf) == Some(0) {
+                    // the first address is alive just long enough to answer one request with a challenge (server 0
+                    // plays its part: same keys); everything the client sends there afterwards is lost
+                    fcs[ci].early_done = true;
+                    let d = sc.hist[k].bytes.clone();
+                    if let (_, Some(e)) = sc.opd(&format!("srv-rx 0 {} {}", fcs[ci].cl.addr, hex(&d))) {
+                        let chal = sc.hist[e].bytes.clone();
+                        sc.op(&format!("cli-rx {} {}", h, hex(&chal)));
+                    }
                 }
                 // datagrams towards the silent addresses vanish
             }
@@ -2688,6 +3042,24 @@ fn script_failover(rng: &mut Rng, _tier: Tier, f: &mut dyn FnMut(&str) -> String
                 }
             }
             let _ = q;
+        }
+    }
+    // a short session of every client that got through: the sequence numbers sealed from here on are the ones
+    // the handshake (on whichever addresses) has not used
+    for ci in 0..fcs.len() {
+        let h = fcs[ci].cl.h;
+        let n = rng.range(1, 4);
+        for j in 0..n {
+            if let (_, Some(k)) = sc.opd(&format!("cli-pay {} {}", h, hex(&rng.payload(1 + j as usize)))) {
+                let d = sc.hist[k].bytes.clone();
+                sc.op(&format!("srv-rx 0 {} {}", fcs[ci].cl.addr, hex(&d)));
+            }
+        }
+        if let (_, Some(k)) = sc.opd(&format!("cli-upd {} 250000", h)) {
+            if sc.hist[k].to == SRV_A {
+                let d = sc.hist[k].bytes.clone();
+                sc.op(&format!("srv-rx 0 {} {}", fcs[ci].cl.addr, hex(&d)));
+            }
         }
     }
     sc.op("srv-dump 0");
@@ -2960,7 +3332,7 @@ pub fn profiles() -> Vec<Profile> {
         },
         Profile {
             name: "nc-failover",
-            props: &["C18", "C19", "C07"],
+            props: &["C18", "C19", "C07", "C17"],
             cases: |t| if t == Tier::Thorough { 2000 } else { 200 },
             new_world,
             script: script_failover,
@@ -3150,8 +3522,150 @@ fn without_pending_recv(d: &str) -> String {
     }
 }
 
+/// C07, last clause ("genuine traffic afterwards is still accepted"), for a half-open handshake on the server:
+/// a connection response that echoes the challenge the server issued to its source address is processed —
+/// `connected` when a seat is free, a denial when none is — although unauthentic datagrams (`note hostile`,
+/// answered `none`) reached the server in between. Every hypothesis is reconstructed from the trace:
+///   * half-open handshake of address A = a connection request from A carrying a token issued inside the trace
+///     (`ptok-seal`) that the server answered towards A with a challenge packet sealed under that token's
+///     server-to-client key; the response must open under the token's client-to-server key and echo that body;
+///   * it is forgotten (never judged) at any other datagram from A that is not marked hostile, once its token is
+///     past its expiry second on the server's clock, and for good when the server's limit is changed at run time;
+///   * it is judged only if at least one hostile datagram was handed to that server since the challenge, and
+///     neither A nor the token's client id is connected at that moment;
+///   * seats = the limit given to `srv-new`, occupied = `connected` minus `disconnected` events.
+fn genuine_after_hostile(ops: &[String], outs: &[String]) -> Option<OracleFail> {
+    struct Half {
+        ti: usize,
+        body: Vec<u8>,
+        hostile: usize,
+    }
+    struct S {
+        proto: u64,
+        now_us: u64,
+        seats: u64,
+        fixed_limit: bool,
+        ids: HashMap<u64, String>,
+        half: HashMap<String, Half>,
+    }
+    let tokens = tokens_of(ops, outs, ops.len());
+    let mut servers: HashMap<String, S> = HashMap::new();
+    let mut hostile_next = false;
+    walk(ops, outs, &mut |i, t, out, input, em| {
+        let hostile = hostile_next;
+        hostile_next = t[0] == "note" && t.len() == 2 && (t[1] == "hostile" || t[1] == "stale");
+        if t.len() < 2 || out == "panic" || out == "dead" || out == "bad-op" {
+            return None;
+        }
+        let mut result = None;
+        match t[0] {
+            "srv-new" if t.len() == 9 && out == "ok" => {
+                servers.insert(
+                    t[1].to_string(),
+                    S { proto: p_u64(t[4]).unwrap_or(0), now_us: p_u64(t[2]).unwrap_or(0), seats: p_u64(t[3]).unwrap_or(0), fixed_limit: true, ids: HashMap::new(), half: HashMap::new() },
+                );
+            }
+            "srv-setmax" => {
+                if let Some(s) = servers.get_mut(t[1]) {
+                    s.fixed_limit = false;
+                    s.half.clear();
+                }
+            }
+            "srv-upd" if t.len() == 3 => {
+                if let Some(s) = servers.get_mut(t[1]) {
+                    s.now_us = s.now_us.saturating_add(p_u64(t[2]).unwrap_or(0));
+                    let now_s = s.now_us / 1_000_000;
+                    s.half.retain(|_, h| now_s < tokens[h.ti].expire);
+                }
+            }
+            "srv-rx" if t.len() == 4 => {
+                if let (Some(s), Some(d)) = (servers.get_mut(t[1]), input) {
+                    let addr = t[2].to_string();
+                    if hostile {
+                        if out == "none" {
+                            for h in s.half.values_mut() {
+                                h.hostile += 1;
+                            }
+                        } else {
+                            s.half.remove(&addr); // (reported by the other clause)
+                        }
+                    } else {
+                        let ty = d.first().map(|b| b & 0xf);
+                        let prev = s.half.remove(&addr);
+                        if ty == Some(0) && d.len() >= 1078 {
+                            // a request: a new half-open handshake when it is answered with a challenge
+                            if let (Some(ti), Some((to, e))) = (tokens.iter().position(|k| k.private == d[54..1078]), em) {
+                                if *to == addr {
+                                    if let Some((2, _, body)) = try_open(e, s.proto, &tokens[ti].s2c) {
+                                        s.half.insert(addr.clone(), Half { ti, body, hostile: 0 });
+                                    }
+                                }
+                            }
+                        } else if let (Some(3), Some(h)) = (ty, prev) {
+                            let k = &tokens[h.ti];
+                            let echo = matches!(try_open(d, s.proto, &k.c2s), Some((3, _, ref body)) if *body == h.body);
+                            let judged = echo && h.hostile > 0 && s.fixed_limit && !s.ids.contains_key(&k.id) && !s.ids.values().any(|a| *a == addr);
+                            if judged {
+                                if (s.ids.len() as u64) < s.seats {
+                                    if !out.starts_with(&format!("connected {} {} ", k.id, addr)) {
+                                        result = fail(
+                                            i,
+                                            "genuine-response-lost-after-hostile:connect",
+                                            format!(
+                                                "the genuine response of client {} at {} to the challenge it was sent, with a free seat ({} of {} taken), was answered `{}`; since the challenge {} unauthentic datagram(s) reached the server",
+                                                k.id,
+                                                addr,
+                                                s.ids.len(),
+                                                s.seats,
+                                                trunc_s(out, 40),
+                                                h.hostile
+                                            ),
+                                        );
+                                    }
+                                } else {
+                                    let denied = matches!(em, Some((to, e)) if *to == addr && matches!(try_open(e, s.proto, &k.s2c), Some((1, _, _))));
+                                    if !denied {
+                                        result = fail(
+                                            i,
+                                            "genuine-response-lost-after-hostile:denied",
+                                            format!(
+                                                "the genuine response of client {} at {} to the challenge it was sent, with every seat taken, was not answered with a denial but `{}`; since the challenge {} unauthentic datagram(s) reached the server",
+                                                k.id,
+                                                addr,
+                                                trunc_s(out, 40),
+                                                h.hostile
+                                            ),
+                                        );
+                                    }
+                                }
+                            }
+                        }
+                    }
+                }
+            }
+            _ => {}
+        }
+        if t[0] == "srv-rx" || t[0] == "srv-updc" || t[0] == "srv-disc" {
+            if let Some(s) = servers.get_mut(t[1]) {
+                let o = toks(out);
+                if o.len() >= 3 && o[0] == "connected" {
+                    if let Some(id) = p_u64(o[1]) {
+                        s.ids.insert(id, o[2].to_string());
+                    }
+                }
+                if o.len() >= 3 && o[0] == "disconnected" {
+                    if let Some(id) = p_u64(o[1]) {
+                        s.ids.remove(&id);
+                    }
+                }
+            }
+        }
+        result
+    })
+}
+
 fn oracle_hostile_noop(ops: &[String], outs: &[String]) -> Option<OracleFail> {
-    hostile_noop(ops, outs)
+    hostile_noop(ops, outs).or_else(|| genuine_after_hostile(ops, outs))
 }
 
 // ----- C13: every produced datagram fits -------------------------------------------------------
@@ -3281,6 +3795,17 @@ fn oracle_table(ops: &[String], outs: &[String]) -> Option<OracleFail> {
                     if !connected.entry(s.clone()).or_default().insert(id) {
                         return fail(i, "connected-twice", format!("client {} reported connected while already connected", id));
                     }
+                    // the bound, judged on the event stream against the limit reconstructed from the ops
+                    // (srv-new / srv-setmax) — not against what the implementation reports about itself
+                    if let (Some(false), Some(m), Some(c)) = (lowered.get(&s), cur_max.get(&s), connected.get(&s)) {
+                        if c.len() as u64 > *m {
+                            return fail(
+                                i,
+                                "above-max-clients",
+                                format!("client {} was seated as connected client number {}, the limit is {} and was never lowered", id, c.len(), m),
+                            );
+                        }
+                    }
                 }
                 if o.len() >= 3 && o[0] == "disconnected" {
                     let id = p_u64(o[1]).unwrap_or(0);
@@ -3302,6 +3827,11 @@ fn oracle_table(ops: &[String], outs: &[String]) -> Option<OracleFail> {
                         };
                         if listed != *c {
                             return fail(i, "lookup-mismatch", format!("clients_id() = {:?} but the events say {:?} are connected", listed, c));
+                        }
+                        if let (Some(false), Some(m), Some(n)) = (lowered.get(&s), cur_max.get(&s), field(o, "n").and_then(p_u64)) {
+                            if n > *m {
+                                return fail(i, "above-max-clients", format!("connected_clients() = {}, the limit is {} and was never lowered", n, m));
+                            }
                         }
                         let conn = field(o, "conn") == Some("1");
                         if conn != c.contains(&id) {
@@ -4327,7 +4857,7 @@ pub fn oracles() -> Vec<Oracle> {
         Oracle { prop: "C19", name: "nc-no-amplification", engines: NC_ALL, check: oracle_amplification },
         Oracle { prop: "C10", name: "nc-connection-table", engines: &["nc-handshake", "nc-attacker", "nc-session", "nc-hostile", "nc-regress"], check: oracle_table },
         Oracle { prop: "C05", name: "nc-connect-justified", engines: &["nc-handshake", "nc-attacker", "nc-session", "nc-hostile", "nc-regress", "nc-table-full"], check: oracle_connect_justified },
-        Oracle { prop: "C17", name: "nc-nonce-unique", engines: &["nc-handshake", "nc-session", "nc-hostile", "nc-regress"], check: oracle_nonce },
+        Oracle { prop: "C17", name: "nc-nonce-unique", engines: &["nc-handshake", "nc-session", "nc-hostile", "nc-regress", "nc-failover"], check: oracle_nonce },
         Oracle { prop: "C17", name: "nc-tampered-rejected", engines: &["nc-wire", "nc-regress"], check: oracle_mutated_rejected },
         Oracle { prop: "C16", name: "nc-wire-roundtrip", engines: &["nc-wire"], check: oracle_roundtrip },
         Oracle { prop: "C04", name: "nc-payloads-authentic-once", engines: &["nc-session", "nc-handshake", "nc-hostile", "nc-known", "nc-regress", "nc-failover"], check: oracle_payloads },
